@@ -81,6 +81,10 @@ def fresh_list(name, minlen, cls=None, fields=()):
     raise AssumptionFailed()
 
 
+def grow_list(lst, name):
+    raise AssumptionFailed()
+
+
 def fresh_inst(cls, fields=()):
     raise AssumptionFailed()
 
